@@ -318,6 +318,7 @@ func runC16(c *core.Ctx) error {
 		r6.Undecided("load:callers", "-", err.Error())
 	} else {
 		checkMemoKeyIsArgument(c, r6, cprog, pkgJS, pkgParser, pkgJP)
+		checkComponentShortcutWholeRemainder(c, cprog)
 		nCalls := 0
 		for _, pp := range []string{pkgJS, pkgParser} {
 			for _, top := range core.PkgFuncs(cprog.SSA, cprog.ByPath[pp]) {
@@ -497,4 +498,133 @@ func checkFindIdx(c *core.Ctx, r *core.Rule, fn *ssa.Function) {
 		}
 	}
 	r.Undecided("findIdx:parse", c.Pos(fn.Pos()), "no strconv parse of the token found in findIdx")
+}
+
+
+// checkComponentShortcutWholeRemainder (R16.7, S1). The OpenAPI parser answers a reference of the form
+// `#/components/<section>/<name>` from the typed Components maps instead of evaluating the pointer. That shortcut
+// designates the node RFC 6901 designates only if the map is asked for the WHOLE remainder after the section prefix:
+// component names cannot contain '/' or '~' (parse_components validates them), so a remainder with further tokens
+// (`A/properties/b`) misses and falls through to real pointer evaluation. A key that is only part of the remainder
+// (the last token, the first token) turns a pointer below a component into a hit on some other component.
+func checkComponentShortcutWholeRemainder(c *core.Ctx, prog *core.Prog) {
+	r := c.NewRule("R16.7", "S1", "the components shortcut looks up the whole remainder of the reference after the section prefix", 2)
+	sp := prog.ByPath[pkgParser]
+	if sp == nil {
+		r.Undecided("load:openapi/parser", "-", "package not loaded")
+		return
+	}
+	n := 0
+	for _, top := range core.PkgFuncs(prog.SSA, sp) {
+		for _, fn := range core.AllFuncs(top) {
+			for _, b := range fn.Blocks {
+				for _, in := range b.Instrs {
+					lk, ok := in.(*ssa.Lookup)
+					if !ok {
+						continue
+					}
+					ld, ok := lk.X.(*ssa.UnOp)
+					if !ok {
+						continue
+					}
+					isComponents := false
+					switch fa := ld.X.(type) {
+					case *ssa.FieldAddr:
+						isComponents = fieldName(fa.X.Type(), fa.Field) == "components"
+					}
+					if f, ok := lk.X.(*ssa.Field); ok {
+						isComponents = fieldName(f.X.Type(), f.Field) == "components"
+					}
+					if !isComponents {
+						continue
+					}
+					n++
+					key := "component-shortcut-key:" + fnKeyFull(fn)
+					if wholeRemainderOfParam(lk.Index, 0) {
+						r.Pass(fmt.Sprintf("%s looks up the whole remainder of its reference parameter after the prefix", fnKeyFull(fn)))
+						continue
+					}
+					r.Fail(key, c.Pos(lk.Pos()), "the components map is not asked for strings.TrimPrefix(ref, prefix), the whole remainder of the reference: with a partial key (`A/properties/b` → `b`) a pointer below a component returns a different component instead of the node RFC 6901 designates")
+				}
+			}
+		}
+	}
+	if n == 0 {
+		r.Undecided("anchor:components-lookup", "-", "no lookup in a `components` map found in openapi/parser")
+	}
+}
+
+
+// wholeRemainderOfParam: v is a parameter p of the enclosing function with a prefix cut off and nothing else:
+// strings.TrimPrefix(p, _), p[len(_):], or the first result of a module function all of whose returns are such an
+// expression of the parameter p is handed to.
+func wholeRemainderOfParam(v ssa.Value, depth int) bool {
+	if depth > 3 {
+		return false
+	}
+	if ex, ok := v.(*ssa.Extract); ok && ex.Index == 0 {
+		v = ex.Tuple
+	}
+	switch x := v.(type) {
+	case *ssa.Slice:
+		if _, isParam := x.X.(*ssa.Parameter); !isParam || x.High != nil || x.Low == nil {
+			return false
+		}
+		if call, ok := x.Low.(*ssa.Call); ok {
+			if bi, ok := call.Call.Value.(*ssa.Builtin); ok && bi.Name() == "len" {
+				return true
+			}
+		}
+		_, isConst := x.Low.(*ssa.Const)
+		return isConst
+	case *ssa.Call:
+		if core.IsCallTo(x.Common(), "strings", "TrimPrefix") {
+			_, isParam := x.Common().Args[0].(*ssa.Parameter)
+			return isParam
+		}
+		callee := x.Common().StaticCallee()
+		if callee == nil || callee.Blocks == nil || !strings.HasPrefix(core.FuncPkgPath(callee), core.Module) {
+			return false
+		}
+		// which of the callee's parameters receive a parameter of the caller
+		nRet := 0
+		for _, b := range callee.Blocks {
+			ret, ok := b.Instrs[len(b.Instrs)-1].(*ssa.Return)
+			if !ok || len(ret.Results) == 0 {
+				continue
+			}
+			res := ret.Results[0]
+			if _, isConst := res.(*ssa.Const); isConst {
+				continue // a constant ("" for "not in this section") is no component name
+			}
+			nRet++
+			if !wholeRemainderOfParam(res, depth+1) {
+				return false
+			}
+			// the parameter the result is cut from must be fed by a caller parameter
+			var p *ssa.Parameter
+			switch y := res.(type) {
+			case *ssa.Slice:
+				p, _ = y.X.(*ssa.Parameter)
+			case *ssa.Call:
+				if len(y.Common().Args) > 0 {
+					p, _ = y.Common().Args[0].(*ssa.Parameter)
+				}
+			}
+			if p == nil {
+				return false
+			}
+			fed := false
+			for i, cp := range callee.Params {
+				if cp == p && i < len(x.Common().Args) {
+					_, fed = x.Common().Args[i].(*ssa.Parameter)
+				}
+			}
+			if !fed {
+				return false
+			}
+		}
+		return nRet > 0
+	}
+	return false
 }
